@@ -76,6 +76,19 @@ class TextChild:
     lang: Optional[str] = field(default=None, metadata={"type": "Attribute"})
 ''',
 }
+INNER_HELPERS = {
+    "Inner": '''
+    @dataclass
+    class Inner:
+        v: Optional[str] = field(default=None, metadata={"type": "Element"})
+        n: Optional[int] = field(default=None, metadata={"type": "Attribute"})
+''',
+    "InnerColor": '''
+    class InnerColor(Enum):
+        RED = "red"
+        BLUE = "blue"
+''',
+}
 HELPER_DEPS = {"Derived": ["Child"]}
 HELPER_ORDER = ["Color", "Num", "QEnum", "Child", "Derived", "NsChild", "Other", "TextChild"]
 
@@ -103,6 +116,7 @@ SCALARS: "OrderedDict[str, dict]" = OrderedDict([
     ("Color", dict(ann="Color", vals=["Color.RED", "Color.GREEN_TEA", "Color.N1"], helpers=["Color"], tags={"enum"})),
     ("Num", dict(ann="Num", vals=["Num.ONE", "Num.MINUS"], helpers=["Num"], tags={"enum"})),
     ("QEnum", dict(ann="QEnum", vals=["QEnum.A", "QEnum.B"], helpers=["QEnum"], tags={"enum", "qname"})),
+    ("InnerColor", dict(ann="InnerColor", vals=["Root.InnerColor.RED", "Root.InnerColor.BLUE"], helpers=["InnerColor"], tags={"enum", "inner"})),
 ])
 SCALAR_KEYS = list(SCALARS)
 # token items must be non-empty and whitespace-free (XSD list item space)
@@ -159,6 +173,14 @@ class ModelSpec:
                         need.append(d)
         return [x for x in HELPER_ORDER if x in need]
 
+    def inner_helpers(self) -> list[str]:
+        need = []
+        for f in self.fields:
+            for hname in f.helpers:
+                if hname in INNER_HELPERS and hname not in need:
+                    need.append(hname)
+        return need
+
     def source(self) -> str:
         out = [PRELUDE]
         if self.elem_gen or self.attr_gen:
@@ -192,6 +214,8 @@ class ModelSpec:
             metas.append(f"        attribute_name_generator = _text.{self.attr_gen}")
         if metas:
             out.append("    class Meta:\n" + "\n".join(metas))
+        for hname in self.inner_helpers():
+            out.append(INNER_HELPERS[hname].rstrip("\n"))
         for f in fields:
             out.append(f.source(True))
         if not fields and not metas:
@@ -315,7 +339,7 @@ def gen_field(ch: Chooser, i: int, frozen: bool, cats: list[str], scalar_keys: l
         # a single field without "type" metadata is a Text field by default
         return FieldSpec(name, "Optional[str]", "None", {}, ["'a'", "None"], cat, [], tags | {"default-type"})
     if cat == "model":
-        cls = ch.pick(["Child", "NsChild", "TextChild"], f"{name}.class")
+        cls = ch.pick(["Child", "NsChild", "TextChild", "Inner"], f"{name}.class")
         arity = ch.pick(["optional", "list", "required"], f"{name}.arity")
         nillable = ch.flag(f"{name}.nillable")
         ns = ch.pick([None, "", NS_O], f"{name}.ns")
@@ -339,12 +363,17 @@ def gen_field(ch: Chooser, i: int, frozen: bool, cats: list[str], scalar_keys: l
         elif cls == "NsChild":
             vals = ["NsChild(v='a')", "NsChild()", "NsChild(q=QName('{urn:c}z'))", "NsChild(v='b', q=QName('{urn:q}y'))"]
             tags.add("qname")
+        elif cls == "Inner":
+            vals = ["Root.Inner(v='a')", "Root.Inner()", "Root.Inner(v='', n=5)"]
+            tags.add("inner")
         else:
             vals = ["TextChild(value='a')", "TextChild()", "TextChild(value=' b ', lang='en')"]
         if nillable:
             # an object without content in a nillable field IS the nil value (docs: "doesn't have any
             # meaningful content"): such instances are not distinct values of the model
             vals = [v for v in vals if not v.endswith("()")]
+            if len(vals) < 3:
+                vals = vals + vals[-1:]
         if arity == "optional":
             return FieldSpec(name, f"Optional[{cls}]", "None", meta, vals[:1] + ["None"] + vals[1:], cat, helpers, tags | {"optional"})
         if arity == "required":
@@ -484,6 +513,8 @@ def validate(spec: ModelSpec) -> None:
     """By-construction exclusions of models that the documentation does not support (each with
     its reason).  Anything that passes must build; a build error is then a violation."""
     cats = [f.cat for f in spec.fields]
+    if spec.base_split and any("inner" in f.tags for f in spec.fields):
+        raise Prune("inner classes are declared in the class that uses them (no base split)")
     if cats.count("text") > 1:
         raise Prune("more than one Text field (documented XmlContextError)")
     if cats.count("wildcard") > 1:
